@@ -560,3 +560,10 @@ MUTATIONS += [
     dict(id="C16-restore-warmup-for-the-wrong-packs", prop="C16", file=RSF, old="            .filter(|(_, fls)| fls.iter().all(|fl| !fl.matches))", new="            .filter(|(_, fls)| !fls.iter().all(|fl| !fl.matches))"),
     dict(id="C14-restore-read-drops-source-file", prop="C14", file=RSF, old="                pack_id,\n                from_file,\n                locations: BlobLocations::from_blob_location(bl, name_dests),", new="                pack_id,\n                from_file: None,\n                locations: BlobLocations::from_blob_location(bl, name_dests),"),
 ]
+
+RIXF = "crates/core/src/commands/repair/index.rs"
+MUTATIONS += [
+    dict(id="C12-check-pack-queued-with-index-size", prop="C12", file=RIXF, old="                            Some(PackHeaderRef::from_index_pack(&p).size()),\n                            size,", new="                            Some(PackHeaderRef::from_index_pack(&p).size()),\n                            index_size,"),
+    dict(id="C08-check-pack-queued-with-index-size", prop="C08", file=RIXF, old="                            Some(PackHeaderRef::from_index_pack(&p).size()),\n                            size,", new="                            Some(PackHeaderRef::from_index_pack(&p).size()),\n                            index_size,"),
+    dict(id="C04-from-file-longer-pack-accepted", prop="C04", file=PFILE, old="header.pack_size() != pack_size", new="header.pack_size() > pack_size"),
+]
